@@ -95,9 +95,36 @@ FieldOK(e) == /\ e.ra \in 0..(F-1) /\ e.ra = Mod(e.a, F) /\ e.rb = Mod(e.b, F)  
               /\ e.sum = (e.ra + e.rb) % F /\ e.diff = Mod(e.ra - e.rb, F) /\ e.prod = (e.ra * e.rb) % F
               /\ e.neg = Mod(0 - e.ra, F) /\ e.iszero = (e.ra = 0)
               /\ (e.rb # 0 => e.quot = (e.ra * InvMod(e.rb, F)) % F)
+(* --- barycentric placement of a periodic graph (pgraphs.rs), a client of the p-adic solver ---
+   event: dim, verts (ascending), edges [h, t, s] (distinct canonical edges h <= t with integer shift vectors),
+   pos[i][k] = k-th coordinate of the position of verts[i] as a rational.  Statement: the first vertex sits at the
+   origin and every vertex is the barycentre of its neighbours: deg(v) * p(v) = sum over incident half-edges of
+   (p(other end) + shift), where an edge h -s-> t contributes (p(t) + s) at h and (p(h) - s) at t. *)
+VIndex(e, v) == CHOOSE i \in 1..Len(e.verts) : e.verts[i] = v
+\* cleared numerators for coordinate k: D_k = product of all denominators of that coordinate
+CoordDen(e, k, p) == LET RECURSIVE Pd(_) Pd(i) == IF i = 0 THEN 1 ELSE (Res(e.pos[i][k].q, p) * Pd(i-1)) % p IN Pd(Len(e.verts))
+CoordNum(e, i, k, p) == LET RECURSIVE Pd(_) Pd(j) == IF j = 0 THEN 1 ELSE ((IF j = i THEN 1 ELSE Res(e.pos[j][k].q, p)) * Pd(j-1)) % p
+                        IN (Res(e.pos[i][k].n, p) * Pd(Len(e.verts))) % p
+BaryEq(e, i, k, p) ==
+   LET v == e.verts[i]  D == CoordDen(e, k, p)
+       RECURSIVE Acc(_)
+       \* <<degree, sum of cleared (neighbour position + shift)>> over the edges 1..j
+       Acc(j) == IF j = 0 THEN <<0, 0>> ELSE
+          LET ed == e.edges[j]  a == Acc(j-1)
+              atHead == IF ed[1] = v THEN <<1, (CoordNum(e, VIndex(e, ed[2]), k, p) + Mod(ed[3][k], p) * D) % p>> ELSE <<0, 0>>
+              atTail == IF ed[2] = v THEN <<1, (CoordNum(e, VIndex(e, ed[1]), k, p) + Mod(0 - ed[3][k], p) * D) % p>> ELSE <<0, 0>>
+          IN <<a[1] + atHead[1] + atTail[1], (a[2] + atHead[2] + atTail[2]) % p>>
+       tot == Acc(Len(e.edges))
+   IN (Mod(tot[1], p) * CoordNum(e, i, k, p)) % p = tot[2]
+BaryDigits(e) == LET RECURSIVE S(_,_) S(i, k) == IF i = 0 THEN 0 ELSE BigDigits(e.pos[i][k].q) + BigDigits(e.pos[i][k].n) + S(i-1, k)
+                     RECURSIVE Mx(_) Mx(k) == IF k = 0 THEN 0 ELSE LET a == S(Len(e.verts), k) b == Mx(k-1) IN IF a > b THEN a ELSE b
+                 IN Mx(e.dim)
+BaryOK(e) == /\ \A k \in 1..e.dim : e.pos[1][k].n.s = 0                                   \* first vertex at the origin
+             /\ \A i \in 1..Len(e.verts), k \in 1..e.dim : e.pos[i][k].q.s = 1
+             /\ \A j \in 1..NPrimesFor(BaryDigits(e) + 8) : \A i \in 1..Len(e.verts), k \in 1..e.dim : BaryEq(e, i, k, PRIMES[j])
 Check(e) == CASE e.ev = "det" -> DetOK(e) [] e.ev = "rank" -> RankOK(e) [] e.ev = "nullspace" -> NullOK(e)
               [] e.ev = "solve" -> SolveOK(e) [] e.ev = "inverse" -> InverseOK(e) [] e.ev = "modsolve" -> ModSolveOK(e)
-              [] e.ev = "field" -> FieldOK(e) [] e.ev = "echelon" -> TRUE [] OTHER -> FALSE
+              [] e.ev = "field" -> FieldOK(e) [] e.ev = "barycentric" -> BaryOK(e) [] e.ev = "echelon" -> TRUE [] OTHER -> FALSE
 Next == /\ l <= Len(Rec)
         /\ ("panic" \notin DOMAIN Rec[l] /\ Check(Rec[l])) = TRUE
         /\ l' = l + 1
